@@ -54,6 +54,9 @@ def configs(tier):
                 if ns > 1 and (nr > 2 or nt > 2) and tier == 'quick':
                     continue
                 out.append(dict(family='subsample', nr=nr, nt=nt, nseries=ns, tags=['subsample']))
+    for grid in ('list', 'range', 'arange'):
+        for ns in (1, 2, 3):
+            out.append(dict(family='subsample', nr=3, nt=4, nseries=ns, concrete=grid, tags=['subsample', 'integer-report-grid']))
     for n in range(1, L + 2):
         out.append(dict(family='timeshift', n=n, tags=['timeshift']))
     for K in range(0, (4 if tier == 'quick' else 6) + 1):
@@ -84,6 +87,11 @@ def run_path(h, cfg):
         rt = [eng.real('r%d' % i) for i in range(nr)]
         tt = [eng.real('t%d' % i) for i in range(nt)]
         series = [[eng.real('s%d_%d' % (k, i)) for i in range(nt)] for k in range(ns)]
+        if cfg.get('concrete'):
+            # the usual way of calling it: an integer report grid (range / arange / list of ints) and real-valued series
+            rt = {'list': list(range(nr)), 'range': range(nr), 'arange': np.arange(nr)}[cfg['concrete']]
+            tt = [0.5 * i for i in range(nt)]
+            series = [[0.25 + 0.5 * i + k for i in range(nt)] for k in range(ns)]
         for a, b in zip(rt, rt[1:]):
             eng.assume(lift(a) <= lift(b)) if eng.mode == 'sym' else None
         for a, b in zip(tt, tt[1:]):
@@ -280,6 +288,10 @@ def replay_concrete(cfg, kind, values, decisions):
         rt = [values.get('r%d' % i, 0.0) for i in range(nr)]
         tt = [values.get('t%d' % i, 0.0) for i in range(nt)]
         series = [[values.get('s%d_%d' % (k, i), 0.0) for i in range(nt)] for k in range(ns)]
+        if cfg.get('concrete'):
+            rt = {'list': list(range(nr)), 'range': range(nr), 'arange': np.arange(nr)}[cfg['concrete']]
+            tt = [0.5 * i for i in range(nt)]
+            series = [[0.25 + 0.5 * i + k for i in range(nt)] for k in range(ns)]
         try:
             res = aux.subsample(rt, tt, *series)
         except Exception as e:
